@@ -103,7 +103,11 @@ def _stage(cs):
 
     def one(c):
         return text.run_case(c), qvimport.drain_div_events()
-    return forkpool.forkmap(one, cs, batch=500)
+    plain = [c for c in cs if c['op'] != 'gensym']
+    own = [c for c in cs if c['op'] == 'gensym']          # these declare types with fixed symbols: one process each
+    res = dict(zip([c['id'] for c in plain], forkpool.forkmap(one, plain, batch=500)))
+    res.update(zip([c['id'] for c in own], forkpool.forkmap(one, own, batch=1)))
+    return [res[c['id']] for c in cs]
 
 
 def judge(ctx, cs, what, tab):
@@ -156,6 +160,8 @@ def judge(ctx, cs, what, tab):
 
 
 def brief(e):
+    if e['op'] == 'gensym':
+        return 'generated symbol for ' + ' * '.join('%s^%d' % (''.join(chr(x) for x in it['codes']), it['e']) for it in e['items'])
     if e['op'] == 'dupsym':
         return 'declare a second unit %r (%s) in another type' % (e['u'], e['how'])
     if e['op'] in ('str', 'strunit'):
@@ -181,6 +187,19 @@ def run(ctx):
     r = tlc.run('CatalogueLaws', cfg_file='CatalogueLaws.cfg', tag='CatalogueLaws', workers=4)
     ctx.add_tlc(r, 'CatalogueLaws (symbol / scale table used for parsing with units)', exhaustive=True)
     dup = [dict(op='dupsym', u=u, how=h) for u in ('a', 'm', 'km/h', 'um', 'K') for h in ('scaled', 'plain')]
+    # generated symbols of derived reference units (the text form of unit terms)
+    gens = []
+    symsets = [['x', 'y'], ['x', 'y', 'z'], ['p/q', 'tt'], ['µ', 'Ω'], ['a/b', 'c/d'], ['x']]
+    for ss in symsets:
+        for exps in itertools.product([-3, -2, -1, 1, 2, 3], repeat=len(ss)):
+            if len(ss) == 3 and (abs(exps[0]) > 2 or abs(exps[2]) > 1):
+                continue
+            if len(ss) == 1 and exps[0] == 1:
+                continue
+            gens.append(dict(op='gensym', how='ref', items=[dict(codes=[ord(ch) for ch in s_], e=e) for s_, e in zip(ss, exps)]))
+    if quick:
+        gens = rnd.sample(gens, 60)
+    dup = dup + gens
     judge(ctx, number_cases(tab, quick, rnd) + string_cases(tab, quick, rnd) + dup, 'text', tab)
     # quantized types: "rounded only if the type has a quantum" - user currencies with arbitrary smallest
     # fractions, constructed from numbers of every kind and from strings (Money.tla, big naturals)
